@@ -67,6 +67,32 @@ func VerifReadHexInt(data []byte, bufSize int) (n int, err error, unread int) {
 	return n, err, len(rest)
 }
 
+// VerifReadHexIntSplit is VerifReadHexInt with the data arriving in reads of at most step bytes.
+func VerifReadHexIntSplit(data []byte, bufSize, step int) (n int, err error, unread int) {
+	r := bufio.NewReaderSize(&verifStepReader{b: data, step: step}, bufSize)
+	n, err = readHexInt(r)
+	rest, _ := io.ReadAll(r)
+	return n, err, len(rest)
+}
+
+type verifStepReader struct {
+	b    []byte
+	step int
+}
+
+func (s *verifStepReader) Read(p []byte) (int, error) {
+	if len(s.b) == 0 {
+		return 0, io.EOF
+	}
+	n := len(p)
+	if s.step > 0 && n > s.step {
+		n = s.step
+	}
+	n = copy(p[:n], s.b)
+	s.b = s.b[n:]
+	return n, nil
+}
+
 // VerifWriteHexInt runs writeHexInt.
 func VerifWriteHexInt(n int) []byte {
 	var bb bytes.Buffer
